@@ -15,7 +15,8 @@
      STREAMS  two concurrent streams: a stream was started while another one was running and
               not stopped, or a stream other than the running one keeps refreshing
      SILENCE  after the heartbeat was stopped (StopHeartbeat / RemoveEntity / the stop inside
-              StartHeartbeat passed its close) more than one refresh of a stopped stream arrived
+              StartHeartbeat passed its close) more than one refresh of a stopped stream arrived, or
+              StopHeartbeat / RemoveEntity returned while the started stream was never stopped
      PERIOD   the running stream does not refresh when its ticker is due, or the measured
               period is not in (0, announced timeout], or a gap exceeded the timeout
      FRESH    the timestamp is not current or the data does not announce the entity's timeout
@@ -122,7 +123,9 @@ Definition advance (m : mst) (t : N) (c : call) (outs : list obs) : mst * verdic
       (with_cur (with_pend m (remove_N t (m_pend m))) (Some g) (m_allow m),
        shape (is_start c) ++ (if is_some (m_cur m) then [CL_STREAMS] else []), rest)
   | Done :: rest =>
-      (with_pend m (remove_N t (m_pend m)), shape (negb (is_query c) && negb (is_start c)), rest)
+      (* StopHeartbeat / RemoveEntity returned: whichever way it took, no stream may be the running one now *)
+      (with_pend m (remove_N t (m_pend m)),
+       shape (negb (is_query c) && negb (is_start c)) ++ (if is_some (m_cur m) then [CL_SILENCE] else []), rest)
   | Panic _ :: rest =>
       (with_pend m (remove_N t (m_pend m)), [CL_PANIC], rest)
   | _ => (m, [CL_SHAPE], [])
@@ -236,6 +239,25 @@ Definition mon (m0 : mst) (o : op) (outs : list obs) : mst * verdict :=
         match outs with
         | Refreshed _ _ _ _ :: _ => mon_run m g k outs
         | _ => mon_tick m g outs
+        end
+      else (m, shape (match outs with [NotRunnable] => true | _ => false end))
+  | Burst _ k n =>
+      (* k starts in a row leave exactly one stream: one stream refreshes during the free run, at the rate of
+         one stream, with strictly increasing counters, each refresh notified once to the subscribed peer *)
+      if burst_ok k n then
+        match m_pend m with
+        | _ :: _ => (m, shape (match outs with [NotRunnable] => true | _ => false end))
+        | [] =>
+            match outs with
+            | [ErrNoFeature] => (m, shape (negb (m_feat m)))
+            | [Bursted g live fast c nn mono] =>
+                ({| m_conf := m_conf m; m_tmo := m_tmo m; m_pend := m_pend m; m_cur := Some g; m_allow := true;
+                    m_last := c; m_data := Some c; m_subs := m_subs m; m_feat := m_feat m |},
+                 (if N.eqb live 1 && negb fast then [] else [CL_STREAMS]) ++
+                 (if N.leb (m_last m + N.of_nat n) c && mono then [] else [CL_COUNTER]) ++
+                 (if N.eqb nn (N.of_nat n * (if m_subs m then 1 else 0)) then [] else [CL_NOTIFY]))
+            | _ => (m, [CL_SHAPE])
+            end
         end
       else (m, shape (match outs with [NotRunnable] => true | _ => false end))
   | Sub | Unsub =>
